@@ -5,6 +5,7 @@ import (
 	"go/token"
 	"go/types"
 	"os"
+	"sort"
 	"strings"
 
 	"golang.org/x/tools/go/ssa"
@@ -93,6 +94,22 @@ func (r *rangeLoop) onEveryIteration(in ssa.Instruction) bool {
 		}
 	}
 	return true
+}
+
+// knownNonNilExit: the i-th virtual return of fn returns (as its last result) a value that was tested non-nil on the way
+// (`if err != nil { return err }`).
+func knownNonNilExit(fn *ssa.Function, i int, vr VRet) bool {
+	errV := cellValue(vr.Vals[len(vr.Vals)-1])
+	if isNilConst(errV) {
+		return false
+	}
+	cs := newCondSpace(fn, recOf(eqAtom("errnil", isVal(errV), isNil)), "errnil")
+	vrs := cs.VirtualReturns()
+	if cs.err != "" || i >= len(vrs) || vrs[i].Ret != vr.Ret || !cs.Seen("errnil") {
+		return false
+	}
+	imp, _ := cs.Implies(vrs[i].Cond, cs.Not(cs.Atom("errnil")))
+	return imp
 }
 
 // C15 — GCPMultiEndpoint routes each RPC via the current endpoint's pool.
@@ -423,6 +440,28 @@ func checkC15(c *Ctx, w *World) {
 		c.check(imp && full && cs.Seen("stillUsed") && paired, "C15.close", "obsolete pool removal", p.ipos(call), "a pool is deleted ⇔ no configured MultiEndpoint mentions its endpoint, after closing its connection and stopping its monitor", "pool removal is not exactly 'endpoint no longer mentioned' or is not paired with Close+stopMonitoring of the same pool: "+wit)
 	}
 	c.floor("C15.close", ndel, 1)
+	// "no configured MultiEndpoint mentions them" speaks of the MultiEndpoints as they are AFTER the update: a pool may be
+	// removed only by an update that goes through — never on a way that can still end in a rejection (the MultiEndpoints are
+	// then the old ones, which may use the pool)
+	for _, a := range g.ai.ByFn[g.upd] {
+		if a.Field != "GCPMultiEndpoint.pools" || a.What != "map-delete" {
+			continue
+		}
+		del := a.Instr
+		bad := ""
+		ucs := newCondSpace(g.upd, nil)
+		for _, vr := range ucs.VirtualReturns() {
+			errV := stripConv(vr.Vals[0])
+			if isNilConst(errV) || !mayPrecede(del, vr.Ret) || !ucs.Satisfiable(and(vr.Cond, ucs.Reach(del))) {
+				continue
+			}
+			if okInf, _ := g.errorInfeasible(vr.Ret, del, func(in ssa.Instruction) bool { return in == del }); okInf {
+				continue
+			}
+			bad = "the update can still be rejected (" + vstr(errV) + " at " + p.ipos(vr.Ret) + ") after this removal"
+		}
+		c.check(bad == "", "C15.close", "pools are removed only by an update that is accepted", p.ipos(del), "no way from the removal of a pool leads to an error return", "a pool is removed although the update is rejected: the MultiEndpoints are still the previous ones and may use it: "+bad)
+	}
 
 	// ---- C15.mes
 	opts := func(v ssa.Value) bool { return isLoadOf(v, "GCPMultiEndpointOptions.MultiEndpoints") }
@@ -493,6 +532,59 @@ func checkC15(c *Ctx, w *World) {
 				okDefault = true
 			}
 		}
+	}
+	// every phase runs on every way to a success return: none of them may be skipped under some further condition
+	{
+		ucs := newCondSpace(g.upd, nil)
+		phases := map[string]ssa.Instruction{}
+		for _, rl := range rangeLoops(g.upd, opts) {
+			eachInstr(g.upd, func(in ssa.Instruction) {
+				if !rl.Blocks[in.Block()] {
+					return
+				}
+				if mu, ok := in.(*ssa.MapUpdate); ok && isLoadOf(mu.Map, "GCPMultiEndpoint.mes") {
+					phases["add/update MultiEndpoints"] = rl.Range
+				}
+			})
+		}
+		for _, rl := range rangeLoops(g.upd, func(v ssa.Value) bool { return isLoadOf(v, "GCPMultiEndpoint.mes") }) {
+			for _, a := range g.ai.ByFn[g.upd] {
+				if a.Field == "GCPMultiEndpoint.mes" && a.What == "map-delete" && rl.Blocks[a.Instr.Block()] {
+					phases["remove obsolete MultiEndpoints"] = rl.Range
+				}
+			}
+		}
+		for _, rl := range rangeLoops(g.upd, func(v ssa.Value) bool { return isLoadOf(v, "GCPMultiEndpoint.pools") }) {
+			for _, a := range g.ai.ByFn[g.upd] {
+				if a.Field == "GCPMultiEndpoint.pools" && a.What == "map-delete" && rl.Blocks[a.Instr.Block()] {
+					phases["remove obsolete pools"] = rl.Range
+				}
+			}
+		}
+		for _, a := range g.ai.ByFn[g.upd] {
+			if a.Field == "GCPMultiEndpoint.defaultName" && a.What == "store" {
+				phases["default name"] = a.Instr
+			}
+		}
+		var names []string
+		for n := range phases {
+			names = append(names, n)
+		}
+		sort.Strings(names)
+		for _, n := range names {
+			at := phases[n]
+			good, wit := true, ""
+			for i, vr := range ucs.VirtualReturns() {
+				if certainlyNonNil(vr.Vals[0]) || knownNonNilExit(g.upd, i, vr) {
+					continue
+				}
+				if imp, w2 := ucs.Implies(vr.Cond, ucs.Reach(at)); !imp {
+					good, wit = false, w2
+				}
+			}
+			c.check(good, "C15.mes", "phase on every way to success: "+n, p.ipos(at), "every success return is preceded by this phase, whatever else holds", "a successful update can skip this phase under some condition: "+wit)
+		}
+		c.floor("C15.mes:phases", len(names), 4)
 	}
 	c.check(okAdd, "C15.mes", "new MultiEndpoints added", p.pos(g.upd.Pos()), "every option name without a MultiEndpoint gets NewMultiEndpoint(its options) stored under that name", "new MultiEndpoints are not created from their own options under their own name")
 	c.check(okSet, "C15.mes", "existing MultiEndpoints updated", p.pos(g.upd.Pos()), "every existing name gets SetEndpoints(its options' endpoint list)", "existing MultiEndpoints are not all updated with their own endpoint list")
